@@ -124,7 +124,9 @@ def main():
     os.makedirs(out_dir, exist_ok=True)
     shutil.copy(diff, f"{out_dir}/patch.diff")
     shutil.copy(demo, f"{out_dir}/demo.rs")
-    notes = open(f"{wt}/NOTES.md").read() if os.path.exists(f"{wt}/NOTES.md") else ""
+    # a second delivery into the same worktree writes NOTES2.md (changes 15, 16)
+    nf = f"{wt}/NOTES2.md" if (int(n) >= 15 and os.path.exists(f"{wt}/NOTES2.md")) else f"{wt}/NOTES.md"
+    notes = open(nf).read() if os.path.exists(nf) else ""
     meta["agent_notes"] = notes[:6000]
     json.dump(meta, open(f"{out_dir}/meta.json", "w"), indent=1)
     print(json.dumps({k: meta[k] for k in meta if k not in ("agent_notes", "ran")}, indent=1))
